@@ -1,3 +1,4 @@
+import Grexv.Lemmas.SearchV
 import Grexv.Model.RegExp
 import Grexv.Lemmas.Lines
 import Grexv.Lemmas.Presentation
@@ -199,6 +200,48 @@ theorem search_spans_with_end_anchor_repetitions_ci (cfg : Config) (hp : RepPrin
   have : ∀ u : Str, u.map (convAtom cfg) = u.map (Props.C03.docAtom cfg) :=
     fun u => List.map_congr_left (fun c _ => Props.C03.convAtom_documented cfg c)
   exact rep_find_eol cfg hp hns hne' env ws st h hseg
+    (fun w hw => by have := hlen w hw; rwa [clusterOfPieces_eq, List.length_map] at this) t ht hne s hsc (by rw [this]; exact hs)
+
+/-- **C08, the search half, in verbose mode** (start anchor disabled, end anchor in place; no `-r`; every subset of the class options,
+capturing groups, `-e`; case-sensitive): `Regex::find` with the verbose pattern on every non-empty test case returns the whole test case —
+the verbose text is parsed under `(?x)` to the very pattern of the non-verbose text -/
+theorem search_spans_with_end_anchor_verbose (cfg : Config) (hp : VerbosePrint cfg) (hci : cfg.ci = false)
+    (hns : cfg.noStart = true) (hne' : cfg.noEnd = false) (env : Env) (ws : List Str) (st : Stages)
+    (h : regExpFrom cfg env ws = .ok st) (hseg : ∀ w ∈ ws, SegOK env w) (t : Str) (ht : t ∈ ws) (hne : t ≠ []) :
+    ∃ P, Spec.parse (fmtRegExp cfg st.finalAst) = some (⟨false, true⟩, P) ∧ Spec.find false P t = some (0, t.length) := by
+  have hsc : ∀ c ∈ t, Scalar c := by
+    obtain ⟨h1, h2⟩ := hseg t ht
+    intro c hc
+    rw [← h2] at hc
+    obtain ⟨p, hp', hcp⟩ := List.mem_flatten.mp hc
+    exact (h1 p hp').2 c hcp
+  have hst : storedCases cfg env ws = ws := by simp [storedCases, hci]
+  obtain ⟨hwf, hlang⟩ := final_expr_exact cfg hp.rep hp.anch env ws st h (by rw [hst]; exact hseg) (by rw [hst]; exact ⟨t, ht, hne⟩)
+  have hself : st.finalAst.strLang false t := by
+    apply (hlang false t).mpr
+    rw [hst]
+    refine ⟨t, ht, hne, ?_⟩
+    have : ∀ u : Str, u.map (convAtom cfg) = u.map (Props.C03.docAtom cfg) :=
+      fun u => List.map_congr_left (fun c _ => Props.C03.convAtom_documented cfg c)
+    rw [this]
+    exact Props.C03.generalises_self cfg t
+  have := printed_find_eol_verbose false cfg.cap cfg.esc st.finalAst hwf t hsc hself
+  rw [fmtRegExp_verbose_eq cfg hp, hci, hns, hne']
+  exact this
+
+/-- the same with `-r` (and any class options, with or without `-i`): `Regex::find` with the verbose pattern returns whole every string
+that the atoms of a non-empty stored test case denote -/
+theorem search_spans_with_end_anchor_repetitions_verbose (cfg : Config) (hp : RepVerbose cfg)
+    (hns : cfg.noStart = true) (hne' : cfg.noEnd = false)
+    (env : Env) (ws : List Str) (st : Stages)
+    (h : regExpFrom cfg env ws = .ok st) (hseg : ∀ w ∈ storedCases cfg env ws, SegOK env w)
+    (hlen : ∀ w ∈ storedCases cfg env ws, (clusterOfPieces (env.segOf w)).length ≤ 1000)
+    (t : Str) (ht : t ∈ storedCases cfg env ws) (hne : t ≠ []) (s : Str) (hsc : ∀ c ∈ s, Scalar c)
+    (hs : atomsDen cfg.ci (t.map (Props.C03.docAtom cfg)) s) :
+    ∃ P, Spec.parse (fmtRegExp cfg st.finalAst) = some (⟨cfg.ci, true⟩, P) ∧ Spec.find cfg.ci P s = some (0, s.length) := by
+  have : ∀ u : Str, u.map (convAtom cfg) = u.map (Props.C03.docAtom cfg) :=
+    fun u => List.map_congr_left (fun c _ => Props.C03.convAtom_documented cfg c)
+  exact rep_find_eol_verbose cfg hp hns hne' env ws st h hseg
     (fun w hw => by have := hlen w hw; rwa [clusterOfPieces_eq, List.length_map] at this) t ht hne s hsc (by rw [this]; exact hs)
 
 example : PlainPrintCI { noStart := true } := ⟨rfl, rfl, rfl, rfl, rfl⟩
